@@ -61,13 +61,15 @@ class Ctx(object):
         self.excluded_known = collections.Counter()
         self.exhaustive = []              # names of sub-domains enumerated completely
         self.notes = {}
-        self._sample_every = 1
+        self.recent = collections.deque(maxlen=200)  # cases judged before a failure (for history-dependent defects)
+        self.trail = collections.deque(maxlen=200)   # raw items of tight loops; converted by fail(..., trail_case=fn)
 
     # -- counting ---------------------------------------------------------
     def check(self, case, judge=None):
         """Judge one case with the module's oracle, count it, collect failures.
         Never raises for a property failure (collect mode)."""
         v = (judge or self.mod.judge)(case)
+        self.recent.append(case)
         self.evaluations += 1
         for lab in v.labels:
             self.labels[lab] += 1
@@ -91,18 +93,29 @@ class Ctx(object):
         if sample is not None and len(self.samples) < 6:
             self.samples.append(sample)
 
-    def fail(self, case, sig, msg):
+    def fail(self, case, sig, msg, trail_case=None):
         if sig in self.known_open:
             self.excluded_known[sig] += 1
             return
         size = case_size(case)
         cur = self.failures.get(sig)
         if cur is None:
-            self.failures[sig] = dict(case=case, message=str(msg)[:600], size=size, count=1)
+            self.failures[sig] = dict(case=case, message=str(msg)[:600], size=size, count=1,
+                                      history=self._history(case, trail_case))
         else:
             cur["count"] += 1
             if size < cur["size"]:
-                cur.update(case=case, message=str(msg)[:600], size=size)
+                cur.update(case=case, message=str(msg)[:600], size=size,
+                           history=self._history(case, trail_case))
+
+    def _history(self, case, trail_case):
+        if trail_case is not None:
+            h = [trail_case(x) for x in self.trail]
+        else:
+            h = list(self.recent)
+        if h and h[-1] == case:
+            h = h[:-1]
+        return h
 
     def mark_exhaustive(self, name):
         self.exhaustive.append(name)
@@ -175,6 +188,46 @@ class Ctx(object):
                     labels=dict(self.labels), samples=self.samples, failures=self.failures,
                     excluded_known=dict(self.excluded_known), exhaustive=self.exhaustive,
                     notes=self.notes)
+
+
+def judge_case(mod, case):
+    """the module's oracle, plus the generic 'history' wrapper: cases judged in order in one process"""
+    if isinstance(case, dict) and case.get("k") == "history":
+        fails = []
+        last = Verdict()
+        for c in case["cases"]:
+            last = mod.judge(c)
+            fails.extend(last.fails)
+        return Verdict(fails, last.nontrivial, last.labels, last.key)
+    return mod.judge(case)
+
+
+def _fresh_worker(args):
+    modname, case = args
+    try:
+        boot.boot()
+        mod = importlib.import_module(modname)
+        v = judge_case(mod, case)
+        return ("ok", [(s, str(m)[:600]) for s, m in v.fails])
+    except BaseException:
+        return ("error", traceback.format_exc())
+
+
+def fresh_judge(modname, case, timeout=600):
+    """judge one case in a freshly forked process (no state left over from other cases)"""
+    mp = multiprocessing.get_context("fork")
+    pool = mp.Pool(processes=1, maxtasksperchild=1)
+    try:
+        st, r = pool.apply_async(_fresh_worker, ((modname, case),)).get(timeout)
+    except multiprocessing.TimeoutError:
+        st, r = "error", "timeout while judging a single case"
+    finally:
+        pool.terminate()
+        pool.join()
+    if st != "ok":
+        sys.stderr.write("HARNESS-ERROR: oracle raised while judging a saved case:\n%s\n" % r)
+        boot.harness_error("oracle raised on a saved case")
+    return r
 
 
 def load_findings():
@@ -282,7 +335,7 @@ def run_check(pid, tier, seed):
             else:
                 cur["count"] += info["count"]
                 if info["size"] < cur["size"]:
-                    cur.update(case=info["case"], message=info["message"], size=info["size"])
+                    cur.update(case=info["case"], message=info["message"], size=info["size"], history=info.get("history"))
         excluded.update(r["excluded_known"])
         exhaustive.extend(r["exhaustive"])
         for k, v in r["notes"].items():
@@ -299,16 +352,40 @@ def run_check(pid, tier, seed):
         # still write evidence so that the state is visible, but the run is inconclusive
         boot.harness_error("%d shard(s) failed inside the harness" % len(errors))
 
-    # confirm each new signature with the plain oracle before reporting (no flaky alarms)
+    # confirm each new signature with the plain oracle in a fresh process before reporting (no flaky alarms);
+    # a failure that needs earlier cases in the same process (state left behind by the library) is reported
+    # together with the shortest such history we can find
     confirmed = {}
     for sig, info in sorted(failures.items()):
-        try:
-            v = mod.judge(info["case"])
-            sigs = [s for s, _ in v.fails]
-        except Exception:
-            sys.stderr.write("HARNESS-ERROR: oracle raised while confirming %s:\n%s\n" % (sig, traceback.format_exc()))
-            boot.harness_error("oracle raised on confirmation")
-        if sig in sigs:
+        if sig in [x for x, _ in fresh_judge(modname, info["case"])]:
+            confirmed[sig] = info
+            continue
+        hist = info.get("history") or []
+        found = None
+        if hist:
+            def repro(h):
+                return sig in [x for x, _ in fresh_judge(modname, dict(k="history", cases=h + [info["case"]]))]
+            if repro(hist):
+                # shrink the history: drop halves, then single elements (bounded number of fresh-process trials)
+                trials = 0
+                chunk = max(1, len(hist) // 2)
+                while chunk >= 1 and trials < 80:
+                    i = 0
+                    progressed = False
+                    while i < len(hist) and trials < 80:
+                        cand = hist[:i] + hist[i + chunk:]
+                        trials += 1
+                        if repro(cand):
+                            hist = cand
+                            progressed = True
+                        else:
+                            i += chunk
+                    if chunk == 1 and not progressed:
+                        break
+                    chunk = chunk // 2 if chunk > 1 else (1 if progressed else 0)
+                found = dict(k="history", cases=hist + [info["case"]])
+        if found:
+            info = dict(info, case=found, message="[needs the preceding case(s) in the same process] " + info["message"])
             confirmed[sig] = info
         else:
             notes.setdefault("unconfirmed_signatures", [])
@@ -327,8 +404,7 @@ def run_check(pid, tier, seed):
             try:
                 with open(os.path.join(boot.VERIF, "findings", "witness", w)) as fh:
                     wcase = json.load(fh)["case"]
-                v = mod.judge(wcase)
-                reproduced = f["key"] in [s for s, _ in v.fails]
+                reproduced = f["key"] in [x for x, _ in fresh_judge(modname, wcase)]
             except Exception as err:
                 reproduced = None
                 sys.stderr.write("warning: witness %s could not be replayed: %r\n" % (w, err))
@@ -368,7 +444,7 @@ def run_replay(pid, path):
     with open(path) as f:
         doc = json.load(f)
     case = doc["case"] if isinstance(doc, dict) and "case" in doc else doc
-    v = mod.judge(case)
+    v = judge_case(mod, case)
     if v.fails:
         for sig, msg in v.fails:
             print("  signature: %s\n  message: %s" % (sig, msg))
